@@ -641,7 +641,10 @@ class Tally(StatisticsInterface):
         """
         n = float(self._n)
         if n > 1:
-            denominator = self.variance() ** 1.5
+            # x * sqrt(x) rather than x ** 1.5: ** raises OverflowError for 
+            # a very large variance where * gives inf
+            variance = self.variance()
+            denominator = variance * math.sqrt(variance)
             if denominator == 0.0:
                 return math.nan
             skew_biased = (self._m3 / n) / denominator
